@@ -15,6 +15,7 @@ CONSTANTS
   MaxAdv = 0
   MaxFork = 0
   UseScan = FALSE
+  UseAccounts2 = FALSE
   UseSelf = FALSE
   UseDiverge = FALSE
   UseAdv = FALSE
